@@ -131,7 +131,7 @@ PLAN["C12"] = dict(
                 "import_coredefs exemptions); validate_msg_id likewise for messages, signals and reserved ids")
 from pyvc import tables as _tables, detcheck as _detcheck, hashcheck as _hashcheck, importcheck as _importcheck, rgcheck as _rgcheck
 from .logger_contracts import LOGGER_C17, LOGGER_SIDECARS
-PLAN["C12"]["extra"] = [_importcheck.check, _importcheck.check_reserve]
+PLAN["C12"]["extra"] = [_importcheck.check, _importcheck.check_reserve, _importcheck.check_current_file]
 PLAN["C11"]["extra"] = [_importcheck.check_layout_pass]
 PLAN["C11"]["level_text"] = ("SMT-discharged contracts (pyvc/z3, real source re-read on every run) for Parser.check_alignment and validate_msg_def - see the explanation below - plus one contract decided "
                             "by a syntactic path analysis, not by SMT (by_backend 'dataflow' in the evidence): every normal exit of Parser.add_fields, the field-list-reuse branch included, is preceded "
